@@ -49,6 +49,13 @@ def modPowNat (b e m : Nat) : Nat :=
     | f + 1 => if e = 0 then acc else go f (b * b % m) (e / 2) (if e % 2 = 1 then acc * b % m else acc)
   go (e + 1) (b % m) e (1 % m)
 
+/-- the number `bigModExp.Run` left-pads: `base^exp mod m` in minimal big-endian bytes, nothing for a zero modulus -/
+def modExpBody (rest : BA) (baseLen expLen modLen : Nat) : BA :=
+  let base := beNat (getData rest 0 baseLen)
+  let exp := beNat (getData rest baseLen expLen)
+  let md := beNat (getData rest (wadd baseLen expLen) modLen)
+  if md = 0 then #[] else natBytes (modPowNat base exp md)
+
 /-- `bigModExp.Run`: header lengths truncated to 64 bits, operands sliced zero-padded out of the
     rest of the input, result left-padded to `modLen`. -/
 def modExpRun (input : BA) : BA :=
@@ -56,12 +63,7 @@ def modExpRun (input : BA) : BA :=
   let expLen := beNat (getData input 32 32) % 2 ^ 64
   let modLen := beNat (getData input 64 32) % 2 ^ 64
   let rest := if input.size > 96 then input.extract 96 input.size else #[]
-  if baseLen = 0 ∧ modLen = 0 then #[] else
-  let base := beNat (getData rest 0 baseLen)
-  let exp := beNat (getData rest baseLen expLen)
-  let md := beNat (getData rest (wadd baseLen expLen) modLen)
-  if md = 0 then leftPad #[] modLen
-  else leftPad (natBytes (modPowNat base exp md)) modLen
+  if baseLen = 0 ∧ modLen = 0 then #[] else leftPad (modExpBody rest baseLen expLen modLen) modLen
 
 /-! ## BLAKE2b compression function F (EIP-152) -/
 
@@ -148,5 +150,29 @@ def precompileRunModel (addr : Nat) (input : BA) : Option (Option BA) :=
   | 9 =>
     if input.size = 213 ∧ beNat (input.extract 0 4) > 20000 then none else some (blake2FRun input)
   | _ => none
+
+/-! ## what the contract executor hands to the EVM (executor/contract_executor.go) -/
+
+/-- `executor.IntrinsicGas(data, contractCreation)`; `none` = `ErrGasUintOverflow`.
+    The final Proposal026 magnification is an unchecked uint64 product in the code. -/
+def intrinsicGas (p26 : Bool) (data : BA) (creation : Bool) : Option Nat :=
+  let gas0 := if creation then 53000 else 21000
+  let nz := data.foldl (fun n b => if b != 0 then n + 1 else n) 0
+  if data.size = 0 then some (if p26 then wmul gas0 30 else gas0) else
+  if (maxU64 - gas0) / 16 < nz then none else
+  let gas1 := wadd gas0 (wmul nz 16)
+  let z := data.size - nz
+  if (maxU64 - gas1) / 4 < z then none else
+  let gas2 := wadd gas1 (wmul z 4)
+  some (if p26 then wmul gas2 30 else gas2)
+
+/-- the gas `contractExecutor.Execute` passes to `evm.Call / Create` (`vmCtx.GasLimit`), given the
+    transaction's gas limit (already checked `≥ intrinsic` when Proposal015 is active) -/
+def executorVmGas (p15 p17 p26 : Bool) (gasLimit intrinsic : Nat) : Nat :=
+  if p15 then
+    let g1 := if p17 ∧ gasLimit > 30000000 then 30000000 else gasLimit
+    let g2 := if p26 then (if gasLimit > 900000000 then 900000000 else gasLimit) else g1
+    wsub g2 intrinsic
+  else 6000000
 
 end Rangers.Evm11
